@@ -1,7 +1,7 @@
 """
 Phase chaining: for a scheduler run that ended by itself, derive from the trace
 
-    cause   success | critical | timeout        (what the run reported)
+    causes  success | critical | timeout        (what happened first; several on a tie)
     tau     the stop instant: first critical raise / T_abs / last non-forever exit
     t_tidy  instant at which every direct member's task is over
     t_end   t_tidy + bounded duration of the shutdown phase
@@ -33,38 +33,59 @@ def shutdown_duration(ix, member, before_seq):
 
 
 def analyse(ix, sid):
-    """-> None if the run of sid did not end by itself or is outside the statements,
-    else dict(cause, tau, t_tidy, findings=[(clause, message)], facts...)"""
+    """-> None if the run of sid was cancelled from outside, never began or is outside the
+    statements, else dict(causes, tau, t_tidy, findings=[(clause, message)], facts...).
+
+    The stop instant is derived from WHAT HAPPENED, not from what the run reported (that is
+    C04's business): tau = the earliest of (first raise of a critical direct member, begin +
+    timeout, exit of the last non-forever member when all of them finished normally);
+    `causes` = the candidates that fall on tau (several on an exact tie: the consequences are
+    the same for all three)."""
     sp = ix.specs[sid]
     mem = sp['members']
     begin = ix.enter(sid)
     verdict = ix.verdict(sid)
-    if begin is None or not mem or verdict['kind'] in ('none', 'cancelled', 'unknown'):
+    if begin is None or not mem or verdict['kind'] == 'cancelled':
         return None
+    if ix.cancel_reqs(sid):
+        return None                     # being cancelled from outside, not over yet
+    if not ix.finite_members(sid):
+        return None                     # no non-forever member: stop instant unspecified
     rex = verdict['ev']
-    cause = verdict['kind']
     findings = []
+    cands = {}
+    crit = ix.critical_raises(sid)
+    if crit:
+        cands['critical'] = crit[0]['t']
+    tabs = ix.t_abs(sid)
+    if tabs is not None:
+        cands['timeout'] = tabs
+    if ix.finite_members(sid):
+        last = ix.last_finite_exit(sid)
+        if last is not None:
+            cands['success'] = last['t']
+    if not cands:
+        return None                     # nothing says when this run should stop
+    tau = min(cands.values())
+    causes = sorted(k for k, v in cands.items() if v == tau)
+    cause = '/'.join(causes)
+    if rex is None:
+        if ix.terminated():
+            return None
+        # the whole run is stuck (deadlock / horizon) although this scheduler had every
+        # reason to stop at tau
+        if ix.trace.t_end is not None and ix.trace.t_end >= tau:
+            return dict(causes=causes, cause=cause, tau=tau, t_tidy=None, rex=None,
+                        begin=begin, cosd=[], t_end_expected=None, stragglers=None,
+                        running_at_tau=0, waiting_at_tau=0,
+                        findings=[('run-never-ends',
+                                   "scheduler %s (%s at t=%s): its run never ends (%s at "
+                                   "t=%s)" % (sid, cause, tau, ix.trace.outcome['how'],
+                                             ix.trace.t_end))])
+        return None
 
     def bad(clause, msg):
         findings.append((clause, "scheduler %s (%s at t=%s): %s" % (sid, cause, tau, msg)))
-
-    # ---- the stop instant
-    if cause == 'critical':
-        crit = ix.critical_raises(sid)
-        if not crit:
-            return None                     # C04's business
-        tau = crit[0]['t']
-    elif cause == 'timeout':
-        tau = ix.t_abs(sid)
-        if tau is None:
-            return None                     # C04's business
-    else:
-        if not ix.finite_members(sid):
-            return None                     # stop instant unspecified
-        last = ix.last_finite_exit(sid)
-        if last is None:
-            return None                     # C02 / C04's business
-        tau = last['t']
 
     # ---- (i) nothing starts after tau; (ii) unfinished members are cancelled at tau
     exits_t = [tau]
@@ -130,7 +151,8 @@ def analyse(ix, sid):
                 may=[mid for mid, d in durs.items() if d == sdt])
         else:
             stragglers_expected = dict(must=[], may=[])
-    return dict(cause=cause, tau=tau, t_tidy=t_tidy, rex=rex, begin=begin, cosd=cosd,
+    return dict(causes=causes, cause=cause, tau=tau, t_tidy=t_tidy, rex=rex, begin=begin,
+                cosd=cosd,
                 t_end_expected=t_end_expected, stragglers=stragglers_expected,
                 running_at_tau=running_at_tau, waiting_at_tau=waiting_at_tau,
                 findings=findings)
